@@ -117,9 +117,9 @@ def classify(case, info):
 
 def strategy():
     return st.builds(
-        lambda p, sink: {"program": p, "sink": sink},
-        P.programs(max_nodes=14),
+        lambda sink, p: {"program": p, "sink": sink},
         st.sampled_from(["file-b", "file-t"]),
+        P.programs(max_nodes=14),
     )
 
 
